@@ -771,14 +771,45 @@ def _values_aligned(prog, fi, vexpr, assigns, res, call, backend):
     """values = {<name of the i-th variable>: <res>.x[i]} over the variable list that defines the backend's columns.
     Accepted shapes: a dict comprehension (possibly inside a conditional expression, possibly through locals), or a loop
     filling the dict; `<res>.x` may be held in a local.  -> (True/False/None, why)"""
+    walrus = {n.target.id: n.value for n in ast.walk(fi.node) if isinstance(n, ast.NamedExpr) and isinstance(n.target, ast.Name)}
+
     def is_point(e):
-        """e is <res>.x or a local bound only to it"""
+        """e is <res>.x or a local bound only to it (by assignment or by a walrus)"""
         if src(e) == f"{res}.x":
             return True
         if isinstance(e, ast.Name):
-            vals = [v for v in assigns.get(e.id, []) if isinstance(v, ast.AST)]
+            vals = [v for v in assigns.get(e.id, []) if isinstance(v, ast.AST)] + ([walrus[e.id]] if e.id in walrus else [])
             return bool(vals) and all(src(v) == f"{res}.x" for v in vals)
         return False
+
+    def verdict3(key, value, i, v, seq):
+        """(True | False | None): False only for a part that is recognisably wrong"""
+        flags = []
+        # key
+        if src(key) in (v, f"{v}.name"):
+            flags.append(True)
+        elif src(key) in (i, f"str({i})") or (isinstance(key, ast.Subscript) and src(key.slice) != i):
+            flags.append(False)
+        else:
+            flags.append(None)
+        # value: <point>[i]
+        subs = [n for n in ast.walk(value) if isinstance(n, ast.Subscript) and is_point(n.value)]
+        if any(src(n.slice) == i for n in subs):
+            flags.append(True)
+        elif subs:
+            flags.append(False)          # the point is indexed, but not by the loop index
+        else:
+            flags.append(None)
+        # the enumerated list
+        if column_list(seq):
+            flags.append(True)
+        elif seq.startswith(("sorted(", "reversed(", "set(", "list(set(", "list(reversed(")) or seq.endswith("[::-1]"):
+            flags.append(False)
+        else:
+            flags.append(None)
+        if False in flags:
+            return False
+        return True if all(f is True for f in flags) else None
 
     def indexed_point(e, i):
         for n in ast.walk(e):
@@ -817,8 +848,9 @@ def _values_aligned(prog, fi, vexpr, assigns, res, call, backend):
             return None, "values are built by a comprehension this rule cannot read"
         i, v = [src(e) for e in g.target.elts]
         seq = src(g.iter.args[0])
-        key_ok = src(comp.key) in (v, f"{v}.name")
-        ok = key_ok and indexed_point(comp.value, i) and column_list(seq)
+        ok = verdict3(comp.key, comp.value, i, v, seq)
+        if ok is None:
+            return None, f"values are built as {{{src(comp.key)}: {src(comp.value)[:40]}}} over {seq}; not every part is readable"
         return ok, (f"values[name of variable i] = {res}.x[i] over enumerate({seq}), the list that defines the backend's columns" if ok else
                     f"values are built as {{{src(comp.key)}: {src(comp.value)[:40]}}} over {seq}: key / index / list do not line up with the backend columns")
     if isinstance(vexpr, ast.Name):
@@ -828,7 +860,9 @@ def _values_aligned(prog, fi, vexpr, assigns, res, call, backend):
                 for st in n.body:
                     if isinstance(st, ast.Assign) and isinstance(st.targets[0], ast.Subscript) and src(st.targets[0].value) == vexpr.id:
                         seq = src(n.iter.args[0])
-                        ok = src(st.targets[0].slice) in (v, f"{v}.name") and indexed_point(st.value, i) and column_list(seq)
+                        ok = verdict3(st.targets[0].slice, st.value, i, v, seq)
+                        if ok is None:
+                            return None, f"values[{src(st.targets[0].slice)}] = {src(st.value)[:40]} over {seq}; not every part is readable"
                         return ok, (f"values[name] = {res}.x[i] over enumerate({seq})" if ok else f"values[{src(st.targets[0].slice)}] = {src(st.value)[:40]} over {seq} does not line up with the backend columns")
     return None, "construction of the values dictionary not recognised"
 
